@@ -7,7 +7,11 @@ the honest response, the response of a history forked at any point, every one-co
 single alteration of every header field / proof term, and evaluates the transcribed verifier and the semantic truth
 (the new state is linked to the trusted one).  harness/cmd/c01 builds real stores with those shapes (through
 ReplicateTx), takes REAL DualProof output, applies the same mixtures/alterations and runs the REAL VerifyDualProof in
-the client flow."""
+the client flow.
+spec/ClientFlow.tla models the Verifiable* response as a whole and the Go client's verifiedGet / VerifiedTxByID /
+VerifiedSet; TLC enumerates every set of up to K altered response fields (incl. consistently recomputed digests);
+harness/cmd/c01c applies them between a real in-process server and the real pkg/client and compares what the client
+hands back with the history."""
 import json, os, sys, concurrent.futures as cf
 sys.path.insert(0, os.path.join(os.path.dirname(os.path.abspath(__file__)), "..", "lib"))
 import vlib
@@ -19,6 +23,7 @@ CFG = """CONSTANTS
   ShapeHi = %d
   OutFile = "%s"
   FixedVerifiers = %s
+  TblBoundToSource = %s
 INIT Init
 NEXT Next
 CHECK_DEADLOCK FALSE
@@ -41,7 +46,7 @@ def run(chk, args):
         sub = os.path.join(wd, "tlc_%d" % lo)
         os.makedirs(sub)
         return p, out, vlib.run_tlc("ProofCases", "pc.cfg", workdir=sub, workers=1, timeout=3000,
-                                    files=[("pc.cfg", CFG % (n, lo, hi, out, fixed))])
+                                    files=[("pc.cfg", CFG % (n, lo, hi, out, fixed, "TRUE" if vlib.model_flag("C01_TblBoundToSource") else "FALSE"))])
 
     with cf.ThreadPoolExecutor(min(len(parts), 12)) as ex:
         results = list(ex.map(tlc_part, parts))
@@ -81,11 +86,58 @@ def run(chk, args):
     with cf.ThreadPoolExecutor(len(groups)) as ex:
         for r in ex.map(replay, list(enumerate(groups))):
             vlib.absorb(chk, r)
+    client_flow(chk, wd, thorough)
     chk.cov["exhaustive"] = True
     chk.cov["rule"] = ("case = (history shape, fork point, trusted tx, queried tx, response kind: honest | forked history | one component from the other history | "
                        "single alteration of one header field or proof term at one position); distinct = distinct case records")
     chk.assumptions += ["SHA-256 collision resistance (free term algebra)", "histories up to N=%d txs, one entry per tx, header versions 0/1 alternating, no tx metadata" % n,
                         "adversary = forked well-formed histories + single alterations; malformed trees are covered by C08's verifier cases"]
+
+
+CF_CFG = """CONSTANTS
+  K = %d
+  OutFile = "%s"
+  TxByIdChecked = %s
+  EntryIdentChecked = %s
+  SetHdrChecked = %s
+INIT Init
+NEXT Next
+CHECK_DEADLOCK FALSE
+"""
+
+
+def client_flow(chk, wd, thorough):
+    """ClientFlow.tla cases on the real client (pkg/client) against a real in-process server."""
+    k = 3 if thorough else 2
+    binp = vlib.go_build("c01c")
+    out = os.path.join(wd, "cf.json")
+    sub = os.path.join(wd, "tlc_cf")
+    os.makedirs(sub)
+    tf = lambda n: "TRUE" if vlib.model_flag(n) else "FALSE"
+    res = vlib.run_tlc("ClientFlow", "cf.cfg", workdir=sub, workers=1, timeout=3000,
+                       files=[("cf.cfg", CF_CFG % (k, out, tf("C01_TxByIdChecked"), tf("C01_EntryIdentChecked"), tf("C01_SetHdrChecked")))])
+    vlib.tlc_must_pass(res, "ClientFlow K=%d" % k)
+    chk.add_tlc(res, "ClientFlow K=%d" % k)
+    facts = {}
+    for line in res.out.splitlines():
+        line = line.strip()
+        if line.startswith('<<"') and line.endswith(">>"):
+            try:
+                v = vlib.parse_tla(line)
+                facts[v[0]] = v[1:]
+            except Exception:
+                pass
+    if facts.get("Complete") != [True]:
+        raise MachineryFault("specification: honest responses are not accepted by the modelled client: %r" % facts.get("Complete"))
+    chk.cov["model_facts"]["ClientFlow"] = {"Complete": True, "Sound": facts.get("Sound") == [True], "cases": (facts.get("cases") or [0])[0], "K": k}
+    o, _ = vlib.run_harness(binp, ["-cases", out, "-dir", os.path.join(wd, "cfd")], timeout=3000)
+    r = json.loads(o)
+    for need in ("op:get0", "op:getAt", "op:getRef", "op:txbyid", "op:set", "accepted-altered", "rejected"):
+        if not (r.get("counters") or {}).get(need):
+            raise MachineryFault("client flow replay is vacuous: counter %s is zero" % need)
+    vlib.absorb(chk, r)
+    chk.assumptions.append("client flow: one history (8 txs, two-entry tx, one reference), alterations of up to K=%d response fields together; "
+                           "the dual-proof body is altered in one place here, its terms one by one in ProofCases" % k)
 
 
 if __name__ == "__main__":
